@@ -6,9 +6,10 @@ interpreter, journal and handler are NOT modelled.  Import-free.
 -/
 namespace Grevm.Block
 
-abbrev Loc := Nat
-abbrev Val := Nat
-abbrev TxId := Nat
+/- Plain notations (not `abbrev`s, which hide hypotheses from `omega`). -/
+notation "Loc" => Nat
+notation "Val" => Nat
+notation "TxId" => Nat
 
 /-- A transaction: reads locations (the continuation depends on the value read), then finishes
     with a write set and an output, or fails with an error. -/
